@@ -592,14 +592,16 @@ def translate(repo):
 
     # parse_header: the straight-line block from `self._fat_size = ...` to `self.first_data_sector = ...`
     ph = find_fn(pfc, "parse_header")
-    blk, on = [], False
+    blk, on, need = [], False, {"first_data_sector", "fat_type", "root_dir_sectors", "root_dir_sector"}
     for s in ph.body:
         tgt = s.targets[0] if isinstance(s, ast.Assign) else None
         if isinstance(tgt, ast.Attribute) and tgt.attr == "_fat_size":
             on = True
         if on:
             blk.append(s)
-        if isinstance(tgt, ast.Attribute) and tgt.attr == "first_data_sector":
+        if on and isinstance(tgt, ast.Attribute):
+            need.discard(tgt.attr)
+        if on and not need:
             break
     else:
         raise Unsupported("parse_header geometry block not found")
